@@ -13,8 +13,11 @@
 //! Back-end rejections of the Metal exporter are outside the property and are counted.
 //!
 //! Spaces (each enumerated completely within its bound): hand-written + repository programs; all sequences of ≤ 3 resource
-//! declarations × pipeline shapes × usage; every word of the exporters' reserved-name lists as the name of a declaration;
-//! every single-token mutant of the fixed programs (rejected programs of every front-end error class).
+//! declarations × pipeline shapes × usage; the contents of the declarations that have a body (every member list of ≤ 2
+//! (thorough ≤ 3) members, the empty list first, as a cbuffer / ConstantBuffer<T> / StructuredBuffer<T>, alone and next to
+//! every neighbour declaration, used and unused); every word of the exporters' reserved-name lists as the name of a
+//! declaration; every single-token mutant of the fixed programs (rejected programs of every front-end error class).
+//! The quick tier thins the largest spaces by a stated rule (digit-sum classes, every 25th mutant), see `caps_hit`.
 
 use super::c08::{MutantSpace, core_programs};
 use crate::ast_norm::{self, Norm};
@@ -107,7 +110,7 @@ fn front_end_phase(src: &str, validate: bool) -> &'static str {
         let toks = match rssl::preprocess::preprocess_fragment(src, FileName("main.rssl".into()), &mut sm) {
             Ok(t) => t,
             // the lexer runs inside the preprocessor
-            Err(rssl::preprocess::PreprocessError::LexerError(..)) => return "lexer",
+            Err(rssl::preprocess::PreprocessError::LexerError(_)) => return "lexer",
             Err(_) => return "preprocessor",
         };
         let toks = rssl::preprocess::prepare_tokens(&toks);
@@ -172,7 +175,7 @@ impl Case {
 
 fn space_tag(name: &str) -> &str {
     let head = name.split('|').next().unwrap_or("");
-    if matches!(head, "res1" | "res2-classes" | "res2-full" | "res3-classes" | "mutant" | "reserved-word") { head } else { "fixed" }
+    if matches!(head, "res1" | "res2-classes" | "res2-full" | "res3-classes" | "body" | "mutant" | "reserved-word") { head } else { "fixed" }
 }
 
 fn pair(a: Cfg, b: Cfg) -> String {
@@ -195,6 +198,7 @@ pub fn check_case(c: &Case, acc: &mut Acc) {
     }
     acc.evals += 1;
     let files = [("main.rssl", c.src.as_str())];
+    let t_compile = thread_cpu_s();
     let outs: Vec<Out> = ALL_CFGS
         .iter()
         .map(|cfg| {
@@ -202,6 +206,7 @@ pub fn check_case(c: &Case, acc: &mut Acc) {
             classify(guard(|| job.run()))
         })
         .collect();
+    acc.add("cpu_us phase: the four compilations", ((thread_cpu_s() - t_compile) * 1e6) as u64);
     let four = || ALL_CFGS.iter().zip(outs.iter()).map(|(cfg, o)| format!("{}: {}", cfg.name(), o.render())).collect::<Vec<_>>().join(" | ");
 
     // ---- (1) front-end verdict and diagnostic
@@ -275,6 +280,8 @@ pub fn check_case(c: &Case, acc: &mut Acc) {
 
     // ---- (3) the HLSL sources differ only in binding / attribute annotations and buffer-address lowering
     let mentions_ba = c.src.contains("BufferAddress");
+    let t_compare = thread_cpu_s();
+    let dx_trees: Vec<Result<ast::Module, String>> = dx.iter().map(|pd| parse_flavour(&String::from_utf8_lossy(&pd.data))).collect();
     for k in [1usize, 2usize] {
         let Out::Ok(vk) = &outs[k] else { unreachable!() };
         let cfg = ALL_CFGS[k];
@@ -282,9 +289,9 @@ pub fn check_case(c: &Case, acc: &mut Acc) {
             continue; // reported by (4) as pipeline-count
         }
         for (pi, (pd, pv)) in dx.iter().zip(vk.iter()).enumerate() {
-            let dx_text = String::from_utf8_lossy(&pd.data);
+            let _ = pd;
             let vk_text = String::from_utf8_lossy(&pv.data);
-            match compare_flavours(&dx_text, &vk_text, &pv.metadata, cfg == Cfg::VkBa, mentions_ba) {
+            match compare_flavours(&dx_trees[pi], &vk_text, &pv.metadata, cfg == Cfg::VkBa, mentions_ba) {
                 FlavourResult::Same { rewrites } => {
                     acc.add("flavour comparisons that hold", 1);
                     if rewrites > 0 {
@@ -313,6 +320,8 @@ pub fn check_case(c: &Case, acc: &mut Acc) {
             }
         }
     }
+
+    acc.add("cpu_us phase: flavour comparison", ((thread_cpu_s() - t_compare) * 1e6) as u64);
 
     // ---- (4) stages, pipeline state, bindings: every configuration against DirectX
     for k in 1..4usize {
@@ -431,6 +440,28 @@ fn bindings_differ(a: &PipelineDescription, b: &PipelineDescription) -> Option<(
     let na: Vec<&String> = sa.iter().map(|x| &x.0).collect();
     let nb: Vec<&String> = sb.iter().map(|x| &x.0).collect();
     if na != nb {
+        // a binding that one side does not report at all is a different class from a binding that is reported under a
+        // generated name (`kernel` / `kernel_0`): compare the names without their generated `_<digits>` suffix
+        fn stem(n: &str) -> &str {
+            match n.rfind('_') {
+                Some(p) if p > 0 && p + 1 < n.len() && n[p + 1..].bytes().all(|b| b.is_ascii_digit()) => &n[..p],
+                _ => n,
+            }
+        }
+        let mut ta: Vec<&str> = na.iter().map(|n| stem(n)).collect();
+        let mut tb: Vec<&str> = nb.iter().map(|n| stem(n)).collect();
+        ta.sort();
+        tb.sort();
+        if ta != tb {
+            let only_a: Vec<&&str> = ta.iter().filter(|n| ta.iter().filter(|m| m == n).count() > tb.iter().filter(|m| m == n).count()).collect();
+            let only_b: Vec<&&str> = tb.iter().filter(|n| tb.iter().filter(|m| m == n).count() > ta.iter().filter(|m| m == n).count()).collect();
+            let class = match (only_a.is_empty(), only_b.is_empty()) {
+                (false, true) => "missing-on-second",
+                (true, false) => "missing-on-first",
+                _ => "other-binding",
+            };
+            return Some((class, format!("binding names {:?} vs {:?} (reported by one side only: {:?} / {:?})", na, nb, only_a, only_b)));
+        }
         return Some(("name", format!("binding names {:?} vs {:?}", na, nb)));
     }
     for (x, y) in sa.iter().zip(sb.iter()) {
@@ -1023,16 +1054,24 @@ fn compare_trees(mut dx: ast::Module, mut vk: ast::Module, meta: &PipelineDescri
     }
 }
 
-pub fn compare_flavours(dx_text: &str, vk_text: &str, vk_meta: &PipelineDescription, buffer_address: bool, mentions_ba: bool) -> FlavourResult {
-    let dx = match guard(|| parse_src(dx_text)) {
-        Ok(Ok(m)) => m,
-        Ok(Err(e)) => return FlavourResult::Unparsable("DirectX", e),
-        Err(p) => return FlavourResult::Unparsable("DirectX", panic_sig(&p)),
+/// re-read an emitted text with rssl's own preprocessor and parser
+fn parse_flavour(text: &str) -> Result<ast::Module, String> {
+    match guard(|| parse_src(text)) {
+        Ok(Ok(m)) => Ok(m),
+        Ok(Err(e)) => Err(e),
+        Err(p) => Err(panic_sig(&p)),
+    }
+}
+
+/// `dx`: the re-read DirectX text (read once per pipeline, compared with both Vulkan configurations)
+pub fn compare_flavours(dx: &Result<ast::Module, String>, vk_text: &str, vk_meta: &PipelineDescription, buffer_address: bool, mentions_ba: bool) -> FlavourResult {
+    let dx = match dx {
+        Ok(m) => m.clone(),
+        Err(e) => return FlavourResult::Unparsable("DirectX", e.clone()),
     };
-    let vk = match guard(|| parse_src(vk_text)) {
-        Ok(Ok(m)) => m,
-        Ok(Err(e)) => return FlavourResult::Unparsable("Vulkan", e),
-        Err(p) => return FlavourResult::Unparsable("Vulkan", panic_sig(&p)),
+    let vk = match parse_flavour(vk_text) {
+        Ok(m) => m,
+        Err(e) => return FlavourResult::Unparsable("Vulkan", e),
     };
     compare_trees(dx, vk, vk_meta, buffer_address, mentions_ba)
 }
@@ -1382,23 +1421,40 @@ pub const N_USAGES: u64 = 3;
 /// pipelines in one file; usage: 0 every resource used directly by an entry point, 1 through helper functions, 2 only the
 /// last resource is used; dbg: DefaultBindGroup of the (first) pipeline
 fn build_program(res: &[Res], shape: u64, usage: u64, dbg: u64) -> String {
+    let items: Vec<Item> = res.iter().enumerate().map(|(i, r)| Item::of_res(r, &format!("g{}", i), usage == 1)).collect();
+    build_program_of(&items, shape, usage, dbg)
+}
+
+/// one global declaration of a generated program: its text and the statement that uses it
+struct Item {
+    name: String,
+    decl: String,
+    stmt: String,
+}
+
+impl Item {
+    fn of_res(r: &Res, name: &str, via_param: bool) -> Item {
+        Item { name: name.to_string(), decl: decl_text(r, name), stmt: use_text(r, name, via_param) }
+    }
+}
+
+fn build_program_of(res: &[Item], shape: u64, usage: u64, dbg: u64) -> String {
     let mut s = String::new();
     s.push_str("struct Data { float4 a; uint b; };\nenum Level { Low, High = 3 };\ntemplate<typename T> T twice(T v) { return v + v; }\nstatic uint s_acc = 0;\n");
-    let names: Vec<String> = (0..res.len()).map(|i| format!("g{}", i)).collect();
-    for (r, n) in res.iter().zip(names.iter()) {
-        s.push_str(&decl_text(r, n));
+    for r in res {
+        s.push_str(&r.decl);
     }
     let via = usage == 1;
     if via {
         s.push_str("uint load_from(BufferAddress b, uint o) { return b.Load<uint>(o); }\n");
-        for (r, n) in res.iter().zip(names.iter()) {
-            s.push_str(&format!("void use_{}() {{ {} }}\n", n, use_text(r, n, true)));
+        for r in res {
+            s.push_str(&format!("void use_{}() {{ {} }}\n", r.name, r.stmt));
         }
     }
     // the statements of entry point `slot` out of `slots`
     let uses = |slot: usize, slots: usize| -> String {
         let mut u = String::new();
-        for (i, (r, n)) in res.iter().zip(names.iter()).enumerate() {
+        for (i, r) in res.iter().enumerate() {
             if i % slots != slot {
                 continue;
             }
@@ -1406,10 +1462,10 @@ fn build_program(res: &[Res], shape: u64, usage: u64, dbg: u64) -> String {
                 continue;
             }
             if via {
-                u.push_str(&format!(" use_{}();", n));
+                u.push_str(&format!(" use_{}();", r.name));
             } else {
                 u.push(' ');
-                u.push_str(&use_text(r, n, false));
+                u.push_str(&r.stmt);
             }
         }
         u
@@ -1471,9 +1527,21 @@ struct ResSpace {
     dbgs: Vec<u64>,
     modes: Vec<Mode>,
     validate: bool,
+    /// 1: every case; k > 1: the cases whose digit sum (shape, usage, group, mode and declaration digits) is a multiple of k.
+    /// For every choice of all digits but one there are cases with every k-th value of the remaining digit, so every
+    /// combination of up to (number of digits - 1) dimensions still occurs
+    thin: u64,
 }
 
 impl ResSpace {
+    fn keep(&self, idx: u64) -> bool {
+        if self.thin <= 1 {
+            return true;
+        }
+        let mut d = Vec::new();
+        decode(idx, &self.radices(), &mut d);
+        d.iter().sum::<u64>() % self.thin == 0
+    }
     fn radices(&self) -> Vec<u64> {
         let mut r = vec![self.shapes.len() as u64, self.usages.len() as u64, self.dbgs.len() as u64, self.modes.len() as u64];
         for _ in 0..self.len {
@@ -1513,6 +1581,7 @@ fn res_spaces(quick: bool) -> Vec<ResSpace> {
         dbgs: vec![0, 1],
         modes: if quick { vec![Mode::All] } else { vec![Mode::All, Mode::NoPipeline] },
         validate: true,
+        thin: if quick { 2 } else { 1 },
     });
     // two declarations over the allocator classes: every shape
     v.push(ResSpace {
@@ -1524,6 +1593,7 @@ fn res_spaces(quick: bool) -> Vec<ResSpace> {
         dbgs: if quick { vec![0] } else { vec![0, 1] },
         modes: vec![Mode::All],
         validate: false,
+        thin: if quick { 2 } else { 1 },
     });
     // two declarations over the full alphabet
     v.push(ResSpace {
@@ -1535,6 +1605,7 @@ fn res_spaces(quick: bool) -> Vec<ResSpace> {
         dbgs: vec![0],
         modes: vec![Mode::All],
         validate: false,
+        thin: 1,
     });
     // three declarations over the allocator classes
     v.push(ResSpace {
@@ -1546,8 +1617,215 @@ fn res_spaces(quick: bool) -> Vec<ResSpace> {
         dbgs: vec![0],
         modes: vec![Mode::All],
         validate: false,
+        thin: if quick { 3 } else { 1 },
     });
     v
+}
+
+// ---------------------------------------------------------------------------------------------
+// space 2b: the contents of the declarations that have a body (G-BODY). The resource alphabet above gives every cbuffer and
+// every struct two members. Here the member list itself is enumerated: every sequence of 0..=max members over the member
+// alphabet (the empty list first), as the body of a cbuffer, of the struct of a ConstantBuffer<T> and of the struct of a
+// (RW)StructuredBuffer<T>, alone and at every position next to every neighbour declaration, with and without a group
+// annotation, with the members read by the entry point or not mentioned at all.
+
+#[derive(Copy, Clone)]
+struct MemberTy {
+    ty: &'static str,
+    /// array suffix of the declarator
+    arr: &'static str,
+    /// expression that reads a scalar out of the member `@` (forms that the Metal exporter implements)
+    scalar: &'static str,
+}
+
+const MEMBER_TYPES: [MemberTy; 8] = [
+    MemberTy { ty: "float4", arr: "", scalar: "@.x" },
+    MemberTy { ty: "uint", arr: "", scalar: "@" },
+    MemberTy { ty: "float4x4", arr: "", scalar: "mul(@, float4(1, 0, 0, 0)).x" },
+    MemberTy { ty: "Data", arr: "", scalar: "@.b" },
+    MemberTy { ty: "float", arr: "[3]", scalar: "@[2]" },
+    // thorough tier
+    MemberTy { ty: "float3", arr: "", scalar: "@.y" },
+    MemberTy { ty: "Level", arr: "", scalar: "@" },
+    MemberTy { ty: "half", arr: "", scalar: "@" },
+];
+
+fn member_alphabet(quick: bool) -> &'static [MemberTy] {
+    if quick { &MEMBER_TYPES[..5] } else { &MEMBER_TYPES[..] }
+}
+
+/// all member lists of length 0..=max over the alphabet (as indices into MEMBER_TYPES), shortest first
+fn member_lists(quick: bool) -> Vec<Vec<usize>> {
+    let n = member_alphabet(quick).len();
+    let max = if quick { 2 } else { 3 };
+    let mut out: Vec<Vec<usize>> = vec![vec![]];
+    let mut last: Vec<Vec<usize>> = vec![vec![]];
+    for _ in 0..max {
+        let mut next = Vec::new();
+        for l in &last {
+            for m in 0..n {
+                let mut x = l.clone();
+                x.push(m);
+                next.push(x);
+            }
+        }
+        out.extend(next.iter().cloned());
+        last = next;
+    }
+    out
+}
+
+/// 0 `cbuffer N { .. }`, 1 `struct N_t { .. }; ConstantBuffer<N_t> N;`, 2 `StructuredBuffer<N_t> N;`, 3 `RWStructuredBuffer<N_t> N;`
+const BODY_FORMS: [&str; 4] = ["cbuffer", "ConstantBuffer", "StructuredBuffer", "RWStructuredBuffer"];
+
+/// the declarations that stand next to the one with the enumerated body: a texture, a cbuffer with members, a writable
+/// buffer, a buffer address (an inline constant for Vulkan with buffer addresses) and a second body-less cbuffer
+const N_NEIGHBOURS: usize = 5;
+fn neighbour(k: usize, name: &str) -> Item {
+    match k {
+        0 => Item::of_res(&Res { kind: 0, array: 0, group: 0 }, name, false),
+        1 => Item::of_res(&Res { kind: 8, array: 0, group: 0 }, name, false),
+        2 => Item::of_res(&Res { kind: 15, array: 0, group: 0 }, name, false),
+        3 => Item::of_res(&Res { kind: 4, array: 0, group: 0 }, name, false),
+        _ => Item { name: name.to_string(), decl: format!("cbuffer {} {{ }}\n", name), stmt: String::new() },
+    }
+}
+const NEIGHBOUR_NAMES: [&str; N_NEIGHBOURS] = ["Texture2D", "cbuffer", "RWByteAddressBuffer", "BufferAddress", "empty-cbuffer"];
+
+#[derive(Clone)]
+struct BodyCase {
+    form: usize,
+    members: Vec<usize>,
+    /// 0 none, 1 `register(space1)`, 2 `[[rssl::bind_group(2)]]`, 3 `[[vk::binding(5, 1)]]`
+    group: u8,
+    /// the members are read (the object is mentioned when there are none) / nothing mentions the declaration
+    used: bool,
+    /// neighbour declarations before and after
+    before: Vec<usize>,
+    after: Vec<usize>,
+    shape: u64,
+    validate: bool,
+    mode: Mode,
+}
+
+impl BodyCase {
+    fn item(&self, name: &str) -> Item {
+        let mut prefix = String::new();
+        match self.group {
+            2 => prefix.push_str("[[rssl::bind_group(2)]] "),
+            3 => prefix.push_str("[[vk::binding(5, 1)]] "),
+            _ => {}
+        }
+        let suffix = if self.group == 1 { " : register(space1)" } else { "" };
+        let mut body = String::new();
+        for (i, m) in self.members.iter().enumerate() {
+            let t = &MEMBER_TYPES[*m];
+            body.push_str(&format!(" {} {}_m{}{};", t.ty, name, i, t.arr));
+        }
+        let decl = match self.form {
+            0 => format!("{}cbuffer {}{} {{{} }}\n", prefix, name, suffix, body),
+            f => format!("struct {}_t {{{} }};\n{}{}<{}_t> {}{};\n", name, body, prefix, BODY_FORMS[f], name, name, suffix),
+        };
+        let mut stmt = String::new();
+        if self.used {
+            let object = match self.form {
+                0 => String::new(),
+                1 => format!("{}.", name),
+                _ => format!("{}.Load(1).", name),
+            };
+            for (i, m) in self.members.iter().enumerate() {
+                let member = format!("{}{}_m{}", object, name, i);
+                stmt.push_str(&format!("s_acc += (uint){}; ", MEMBER_TYPES[*m].scalar.replace('@', &member)));
+            }
+            if self.members.is_empty() && self.form != 0 {
+                stmt.push_str(&format!("{};", name));
+            }
+        }
+        Item { name: name.to_string(), decl, stmt }
+    }
+
+    fn case(&self) -> Case {
+        let mut items = Vec::new();
+        for k in &self.before {
+            items.push(neighbour(*k, &format!("g{}", items.len())));
+        }
+        items.push(self.item(&format!("g{}", items.len())));
+        for k in &self.after {
+            items.push(neighbour(*k, &format!("g{}", items.len())));
+        }
+        let src = build_program_of(&items, self.shape, 0, 0);
+        let nb = |v: &Vec<usize>| v.iter().map(|k| NEIGHBOUR_NAMES[*k]).collect::<Vec<_>>().join(",");
+        let name = format!(
+            "body|{}|members[{}]|group{}|{}|before[{}]|after[{}]|shape{}",
+            BODY_FORMS[self.form],
+            self.members.iter().map(|m| format!("{}{}", MEMBER_TYPES[*m].ty, MEMBER_TYPES[*m].arr)).collect::<Vec<_>>().join(","),
+            self.group,
+            if self.used { "used" } else { "unused" },
+            nb(&self.before),
+            nb(&self.after),
+            self.shape
+        );
+        Case { name, src, mode: self.mode.clone(), validate: self.validate }
+    }
+}
+
+/// quick: forms 0..3 × member lists of ≤ 2 members over 5 types (31) × {alone, one neighbour before, one after} (11) ×
+/// {(no group, used), (space1, used), (no group, unused)} × compute shape.
+/// thorough: 4 forms × member lists of ≤ 3 members over 8 types (585) × {alone, one neighbour before / after, one before and
+/// one after} (36) × 4 group annotations × used/unused × {compute, vertex+pixel, compute and graphics} × layout validation
+/// × mode would be 8 M cases; it is enumerated as the union of (a) the quick bounds widened one dimension at a time and
+/// (b) all dimensions but validation and mode together for the member lists of ≤ 1 member.
+fn body_cases(quick: bool) -> Vec<BodyCase> {
+    let lists = member_lists(quick);
+    let short: Vec<Vec<usize>> = lists.iter().filter(|l| l.len() <= 1).cloned().collect();
+    let lists2: Vec<Vec<usize>> = lists.iter().filter(|l| l.len() <= 2).cloned().collect();
+    let mut contexts1: Vec<(Vec<usize>, Vec<usize>)> = vec![(vec![], vec![])];
+    for k in 0..N_NEIGHBOURS {
+        contexts1.push((vec![k], vec![]));
+        contexts1.push((vec![], vec![k]));
+    }
+    let mut contexts2 = contexts1.clone();
+    for a in 0..N_NEIGHBOURS {
+        for b in 0..N_NEIGHBOURS {
+            contexts2.push((vec![a], vec![b]));
+        }
+    }
+    let mut out = Vec::new();
+    let mut push = |lists: &Vec<Vec<usize>>, forms: usize, contexts: &Vec<(Vec<usize>, Vec<usize>)>, gu: &[(u8, bool)], shapes: &[u64], validates: &[bool], modes: &[Mode]| {
+        // simplest first: context, then member list, then the rest
+        for (before, after) in contexts {
+            for members in lists {
+                for form in 0..forms {
+                    for (group, used) in gu {
+                        for shape in shapes {
+                            for validate in validates {
+                                for mode in modes {
+                                    out.push(BodyCase { form, members: members.clone(), group: *group, used: *used, before: before.clone(), after: after.clone(), shape: *shape, validate: *validate, mode: mode.clone() });
+                                }
+                            }
+                        }
+                    }
+                }
+            }
+        }
+    };
+    let gu_quick = [(0u8, true), (1u8, true), (0u8, false)];
+    let gu_all = [(0u8, true), (1, true), (2, true), (3, true), (0, false), (1, false), (2, false), (3, false)];
+    if quick {
+        push(&lists, 3, &contexts1, &gu_quick, &[0], &[false], &[Mode::All]);
+    } else {
+        // (a) one dimension widened at a time over the quick bounds (every push contains or extends the quick space)
+        let alone = vec![(vec![], vec![])];
+        let few = vec![(vec![], vec![]), (vec![1], vec![]), (vec![], vec![0])];
+        push(&lists, 4, &alone, &gu_quick, &[0], &[false], &[Mode::All]); // ≤ 3 members over 8 types
+        push(&lists2, 4, &contexts2, &gu_quick, &[0], &[false], &[Mode::All]); // a neighbour on both sides
+        push(&lists2, 4, &few, &gu_all, &[0], &[false, true], &[Mode::All]); // every group annotation, layout validation
+        push(&lists2, 4, &contexts1, &gu_quick, &[1, 4], &[false], &[Mode::All]); // graphics shapes
+        push(&lists2, 4, &contexts1, &gu_quick, &[0], &[false], &[Mode::NoPipeline]); // no-pipeline mode
+        // (b) all dimensions together for at most one member
+        push(&short, 4, &contexts2, &gu_all, &[0, 4], &[false], &[Mode::All]);
+    }
+    out
 }
 
 // ---------------------------------------------------------------------------------------------
@@ -1629,6 +1907,9 @@ pub fn run(ctx: &Ctx) -> i32 {
         let cpu_key = format!("cpu_us {}", sp.name);
         let r = run_par(ctx, total, 64, |idx, acc| {
             acc.cur_index = base + idx;
+            if !sp.keep(idx) {
+                return;
+            }
             let c = sp.case(idx);
             let t0 = thread_cpu_s();
             check_case(&c, acc);
@@ -1639,18 +1920,44 @@ pub fn run(ctx: &Ctx) -> i32 {
         });
         rep.cov(&format!("alphabet_{}", sp.name), Json::Int(sp.alpha.len() as i64));
         rep.absorb(sp.name, r);
-        eprintln!("[C18] {} ({} cases) done at {:.1}s", sp.name, total, ctx.start.elapsed().as_secs_f64());
+        let kept = (0..total).filter(|i| sp.keep(*i)).count();
+        if sp.thin > 1 {
+            // the evidence names the number of cases that were run, and the size of the space they were thinned from
+            rep.cov(&format!("space_{}", sp.name), Json::Int(kept as i64));
+            rep.cov(&format!("space_{}_before_thinning_by_digit_sum_mod_{}", sp.name, sp.thin), Json::Int(total as i64));
+        }
+        eprintln!("[C18] {} ({} of {} cases) done at {:.1}s", sp.name, kept, total, ctx.start.elapsed().as_secs_f64());
     }
 
-    // ---- space 3: reserved words as names
-    let words = reserved_words();
-    let r = run_par(ctx, words.len() as u64 * N_NAME_FORMS * 2, 16, |idx, acc| {
-        acc.cur_index = (6u64 << 40) + idx;
-        let w = &words[(idx / (N_NAME_FORMS * 2)) as usize];
-        let form = (idx / 2) % N_NAME_FORMS;
-        let mode = if idx % 2 == 0 { Mode::All } else { Mode::NoPipeline };
-        let c = Case { name: format!("reserved-word|form{}|{}", form, w), src: named_program(w, form), mode, validate: false };
+    // ---- space 2b: the contents of declarations that have a body
+    let bodies = body_cases(ctx.quick());
+    let r = run_par(ctx, bodies.len() as u64, 32, |idx, acc| {
+        acc.cur_index = (5u64 << 40) + idx;
+        let c = bodies[idx as usize].case();
+        let t0 = thread_cpu_s();
         check_case(&c, acc);
+        acc.add("cpu_us body", ((thread_cpu_s() - t0) * 1e6) as u64);
+        if idx % 997 == 5 {
+            acc.sample(obj(vec![("space", "body".into()), ("case", c.name.as_str().into()), ("source", one_line(&c.src, 300).into())]));
+        }
+    });
+    rep.absorb("declaration_bodies", r);
+    rep.cov("body_member_alphabet", Json::Int(member_alphabet(ctx.quick()).len() as i64));
+    rep.cov("body_member_lists", Json::Int(member_lists(ctx.quick()).len() as i64));
+    eprintln!("[C18] declaration bodies ({} cases) done at {:.1}s", bodies.len(), ctx.start.elapsed().as_secs_f64());
+
+    // ---- space 3: reserved words as names (thorough: also in no-pipeline mode)
+    let words = reserved_words();
+    let name_modes = ctx.pick(1u64, 2u64);
+    let r = run_par(ctx, words.len() as u64 * N_NAME_FORMS * name_modes, 16, |idx, acc| {
+        acc.cur_index = (6u64 << 40) + idx;
+        let w = &words[(idx / (N_NAME_FORMS * name_modes)) as usize];
+        let form = (idx / name_modes) % N_NAME_FORMS;
+        let mode = if idx % name_modes == 0 { Mode::All } else { Mode::NoPipeline };
+        let c = Case { name: format!("reserved-word|form{}|{}", form, w), src: named_program(w, form), mode, validate: false };
+        let t0 = thread_cpu_s();
+        check_case(&c, acc);
+        acc.add("cpu_us reserved_words", ((thread_cpu_s() - t0) * 1e6) as u64);
     });
     rep.absorb("reserved_words_as_names", r);
     rep.cov("reserved_words", Json::Int(words.len() as i64));
@@ -1658,7 +1965,7 @@ pub fn run(ctx: &Ctx) -> i32 {
     // ---- space 4: single-token mutants of the core programs
     let bases: Vec<(String, String)> = fixed.iter().filter(|(n, s)| !s.contains("RSSL_TARGET_") && !n.starts_with("lexer-") && !n.starts_with("preprocessor-error-missing")).cloned().collect();
     let ms = MutantSpace::new(bases);
-    let stride = ctx.pick(10u64, 1u64);
+    let stride = ctx.pick(25u64, 1u64);
     // thorough: every mutant in both modes with layout validation on and off
     let per = ctx.pick(1u64, MUT_VARIANTS);
     let total = (ms.total / stride) * per;
@@ -1679,13 +1986,14 @@ pub fn run(ctx: &Ctx) -> i32 {
     rep.cov("mutants_total", Json::Int(ms.total as i64));
     rep.absorb("mutants", r);
     if ctx.quick() {
-        rep.caps_hit.push("quick tier: every 10th single-token mutant with one (mode, validation) combination each; one declaration in all-pipelines mode only; two declarations over the class alphabet with 2 group annotations, direct usage and DefaultBindGroup 0; two declarations over the full alphabet without bindless arrays and attribute group annotations and with the compute shape only; three declarations over the 13 allocator classes × 2 group annotations, no arrays, with the compute shape — the rest is explored in the thorough tier".into());
+        rep.caps_hit.push("quick tier: every 25th single-token mutant with one (mode, validation) combination each (25 is coprime to the 57 mutations per token, so every mutation kind is applied at every 25th position); one declaration in all-pipelines mode only and thinned to the cases with an even digit sum (every (shape, usage, declaration) with one of the two default bind groups); three declarations thinned to the cases whose digit sum is a multiple of 3 (every ordered pair of declarations at every two positions, with a third of the alphabet at the remaining position); reserved words in all-pipelines mode only; declaration bodies: member lists of at most 2 members over 5 member types, at most one neighbour, compute shape; two declarations over the class alphabet with 2 group annotations, direct usage and DefaultBindGroup 0, thinned to the cases with an even digit sum (every ordered pair of declarations with 2 or 3 of the 5 pipeline shapes); two declarations over the full alphabet without bindless arrays and attribute group annotations and with the compute shape only; three declarations over the 13 allocator classes × 2 group annotations, no arrays, with the compute shape — the rest is explored in the thorough tier".into());
     }
 
     rep.assumptions = NORMALISER_DESCRIPTION.iter().map(|s| s.to_string()).collect();
     rep.assumptions.extend([
         "a diagnostic is a back-end (exporter) diagnostic iff it starts with `error: hlsl generate:`, `error: hlsl format:`, `error: metal generate:`, `error: metal format:` or `error: interpolator required by pixel stage has not been provided:`; every other Err of compile is a front-end rejection and must be byte-identical in all four configurations".to_string(),
         "Metal exporter rejections and panics are outside the property (counted per class); when all three HLSL flavours are rejected by the HLSL exporter nothing further is related".to_string(),
+        "violation classes of the binding comparison: `missing-on-first` / `missing-on-second` / `other-binding` when one configuration does not report a binding at all (names compared without a generated `_<digits>` suffix), `name` when the same bindings are reported under differently generated names, then `kind`, then `count`".to_string(),
         "binding sets: (name, descriptor kind, count) as a multiset over all groups; static samplers removed on every side; BufferAddress/RwBufferAddress compared as the ByteBuffer/RwByteBuffer they fall back to (ir/src/export.rs); group index, slot, is_used and is_bindless are not part of the property (group differences are counted)".to_string(),
         "stage comparison ignores entry point names (Metal uses fixed names)".to_string(),
         "programs mentioning RSSL_TARGET_ are excluded; the 8 repository inputs that do are explored in their two macro-resolved views instead".to_string(),
